@@ -453,7 +453,9 @@ def handle(case):
         sig = problems[0][0]
         if sig == 'C21:success-infeasible':
             sig += ':' + ('new-style' if case['opt'] in NEW_STYLE else 'old-style')
-        if has_negative_scaler(case) and sig != 'C21:model-not-at-returned-design':
+        elif sig in ('C21:not-the-optimum', 'C21:model-not-at-returned-design'):
+            sig += ':' + case['opt']
+        if has_negative_scaler(case) and not sig.startswith('C21:model-not-at-returned-design'):
             sig = 'C21:negative-constraint-scaler'
         return {'res': res, 'ok': False, 'msg': problems[0][1], 'sig': sig, 'kind': kind + 'success'}
     return {'res': res, 'ok': True, 'msg': '', 'sig': '', 'kind': kind + 'success'}
